@@ -653,13 +653,15 @@ def pp_total_run(fns, table, comb):
         return dict(failures=failures, checked=checked, undecided=undecided)
     bad = []
     unknown = False
+    npos = 0
+    checked += 1          # one obligation: every (next byte, byte after / end of input) class is accepted
     for b1 in range(256):
         if b1 in b'`"\\':
             continue
         for b2 in [None] + list(range(256)):
             if b1 == ord('/') and b2 in (ord('/'), ord('*')):
                 continue                          # a comment starts here
-            checked += 1
+            npos += 1
             r = _accepts(run, b1, b2)
             if r is None:
                 unknown = True
